@@ -26,6 +26,29 @@ func init() {
 	Exec["bmtree.PathsOf"] = func(a []V) string {
 		return U64s(bmtree.PathsOf(a[0].Strs(), a[1].I32(), a[2].I32(), a[3].Bool()))
 	}
+	// [keys1, keys2, from, h, dedup] -> [paths1, paths2], both rendered after the second call
+	Exec["bmtree.PathsOf/held"] = func(a []V) string {
+		r1 := bmtree.PathsOf(a[0].Strs(), a[2].I32(), a[3].I32(), a[4].Bool())
+		r2 := bmtree.PathsOf(a[1].Strs(), a[2].I32(), a[3].I32(), a[4].Bool())
+		return L(U64s(r1), U64s(r2))
+	}
+	// [s, from, h] -> [PathLen, PathHeight, PathBits, PathMask] of PathOf(s, from, h)
+	Exec["bmtree.PathOf/fields"] = func(a []V) string {
+		p := bmtree.PathOf(a[0].Str(), a[1].I32(), a[2].I32())
+		return L(I32(bmtree.PathLen(p)), I32(bmtree.PathHeight(p)), U(bmtree.PathBits(p)), U(bmtree.PathMask(p)))
+	}
+	// [sorted keys with a common from-bit prefix, from, h] -> PathsOf(keys, from, h, true)
+	Exec["bmtree.PathsOf/sorted"] = func(a []V) string {
+		return U64s(bmtree.PathsOf(a[0].Strs(), a[1].I32(), a[2].I32(), true))
+	}
+	// [s, from, w1, w2] -> FromStr32 over [from,from+w1), [from+w1,from+w1+w2), [from,from+w1+w2)
+	Exec["bitmap.FromStr32/split"] = func(a []V) string {
+		s, from, w1, w2 := a[0].Str(), a[1].I32(), a[2].I32(), a[3].I32()
+		k1, v1 := bitmap.FromStr32(s, from, from+w1)
+		k2, v2 := bitmap.FromStr32(s, from+w1, from+w1+w2)
+		k, v := bitmap.FromStr32(s, from, from+w1+w2)
+		return L(L(I32(k1), U(v1)), L(I32(k2), U(v2)), L(I32(k), U(v)))
+	}
 	Register("C11", genC11)
 }
 
@@ -79,6 +102,7 @@ func c11All(g *Gen, s []byte, from, w int, bucket string, withPath bool) {
 	if withPath {
 		g.Do("bmtree.PathOf", L(sv, Int(from), Int(w)), key)
 		g.Do("bmtree.PathOf/str", L(sv, Int(from), Int(w)), key)
+		g.Do("bmtree.PathOf/fields", L(sv, Int(from), Int(w)), key)
 	}
 }
 
@@ -143,7 +167,90 @@ func c11Paths(g *Gen, keys [][]byte, from, h int, bucket string) {
 	}
 }
 
+// c11Held: two key lists of ascending sizes (the second shorter, equal and longer than the first) so that a
+// result buffer reused between calls is overwritten while the first result is still held.
+func c11Held(g *Gen) {
+	mk := func(n int, al []byte) [][]byte {
+		keys := make([][]byte, n)
+		for i := range keys {
+			keys[i] = g.R.Bytes(g.R.Range(1, 4), al)
+		}
+		sort.Slice(keys, func(i, j int) bool { return string(keys[i]) < string(keys[j]) })
+		return keys
+	}
+	for n1 := 0; n1 <= 9; n1++ {
+		for _, n2 := range []int{0, 1, n1 - 1, n1, n1 + 1, 2*n1 + 1} {
+			if n2 < 0 {
+				continue
+			}
+			for _, dd := range []bool{false, true} {
+				al := alphabets[g.R.Intn(len(alphabets))]
+				k1, k2 := mk(n1, al), mk(n2, alphabets[g.R.Intn(len(alphabets))])
+				from := g.R.Pick(0, 0, 3, 8)
+				h := g.R.Pick(8, 16, 32)
+				key := ""
+				if n1 > 0 && n2 > 0 {
+					key = fmt.Sprintf("held/dd%v/n%d/%s", dd, minInt(n1, 5), map[bool]string{true: "grow", false: "fit"}[n2 > n1])
+				}
+				g.Stat("pathsof-held")
+				g.Do("bmtree.PathsOf/held", L(ByteSlices(k1), ByteSlices(k2), Int(from), Int(h), B(dd)), key)
+			}
+		}
+	}
+}
+
+// c11Sorted: key sets sorted in Go's string order whose first `from` bits are equal (the way a trie level is
+// built for the keys below one node): a common byte prefix, then a byte whose top from%8 bits are common, then
+// tails that share prefixes, repeat, or are proper prefixes of one another.
+func c11Sorted(g *Gen) {
+	n := g.N(1200, 15000)
+	for k := 0; k < n; k++ {
+		from := g.R.Pick(0, 0, 0, 1, 7, 8, 9, 15, 16, g.R.Range(0, 40))
+		h := g.R.Pick(1, 4, 8, 16, 31, 32, 32, g.R.Range(0, 32))
+		al := alphabets[g.R.Intn(len(alphabets))]
+		np, r := from/8, from%8
+		pre := g.R.Bytes(np, al)
+		var top byte
+		if r > 0 {
+			top = byte(g.R.Intn(256)) &^ (0xff >> uint(r))
+		}
+		nk := g.R.Range(0, 9)
+		keys := make([][]byte, 0, nk+2)
+		for i := 0; i < nk; i++ {
+			var tail []byte
+			if i > 0 && g.R.Intn(3) == 0 { // share a prefix of the previous tail / repeat it
+				p := keys[i-1][np:]
+				if r > 0 {
+					p = p[1:]
+				}
+				tail = append(append([]byte(nil), p[:g.R.Intn(len(p)+1)]...), g.R.Bytes(g.R.Range(0, 2), al)...)
+			} else {
+				tail = g.R.Bytes(g.R.Range(0, 5), al)
+			}
+			key := append([]byte(nil), pre...)
+			if r > 0 {
+				key = append(key, top|(byte(g.R.Pick(0, 0xff, g.R.Intn(256)))&(0xff>>uint(r))))
+			}
+			keys = append(keys, append(key, tail...))
+		}
+		sort.Slice(keys, func(i, j int) bool { return string(keys[i]) < string(keys[j]) })
+		ps := make(map[uint64]bool)
+		for _, key := range keys {
+			ps[bmtree.PathOf(string(key), int32(from), int32(h))] = true
+		}
+		key := ""
+		if len(keys) >= 2 && h > 0 {
+			key = fmt.Sprintf("sorted/al%d/n%d/distinct%d/w%s", from&7, minInt(len(keys), 5), minInt(len(ps), 4), map[bool]string{true: "32", false: "lt32"}[h == 32])
+		}
+		g.Stat("pathsof-sorted")
+		g.Do("bmtree.PathsOf/sorted", L(ByteSlices(keys), Int(from), Int(h)), key)
+	}
+}
+
 func genC11(g *Gen) {
+	// (0) held results first (hidden state: reused scratch buffers), over ascending sizes
+	c11Held(g)
+
 	// (1) exhaustive: all strings of length 0..L over {00,80,ff,01,a5} x all from in [0, min(56, 8n+9)] and 56
 	//     x all w in [0,32]; FromStr32, PathOf and PathStr(PathOf)
 	maxLen := g.N(2, 3)
@@ -168,8 +275,38 @@ func genC11(g *Gen) {
 		g.Exhaust = append(g.Exhaust, "bmtree.PathOf, PathStr(PathOf): strings of length 0..1 on the same domain (length 2: widths 0,1,3,6,..,30,31,32)")
 	}
 
+	// (1b) five-byte windows, exhaustive over the alphabet: all strings of length 5 x unaligned starts x the widths
+	//      whose span reaches the fifth byte (quick: w = 32 and from in 1..7; thorough: from in 0..8, w in 24..32),
+	//      thorough also all strings of length 4 x all from x all widths (FromStr32 only)
+	c11Strings(5, func(s []byte) {
+		if g.Thorough {
+			for from := 0; from <= 8; from++ {
+				for w := 24; w <= 32; w++ {
+					c11All(g, s, from, w, "exh5-span", w == 32)
+				}
+			}
+		} else {
+			for from := 1; from <= 7; from++ {
+				c11All(g, s, from, 32, "exh5-span", false)
+			}
+		}
+	})
+	if g.Thorough {
+		g.Exhaust = append(g.Exhaust, "bitmap.FromStr32: all strings of length 5 over the alphabet x from in [0,8] x widths 24..32 (PathOf: width 32)")
+		c11Strings(4, func(s []byte) {
+			for from := 0; from <= 41; from++ {
+				for w := 0; w <= 32; w++ {
+					c11All(g, s, from, w, "exh-len4", false)
+				}
+			}
+		})
+		g.Exhaust = append(g.Exhaust, "bitmap.FromStr32: all strings of length 4 over the alphabet x from in [0,41] x all widths 0..32")
+	} else {
+		g.Exhaust = append(g.Exhaust, "bitmap.FromStr32: all strings of length 5 over the alphabet x from in [1,7] x width 32 (five-byte windows)")
+	}
+
 	// (2) sampled: strings of length 4..6 (quick also 3) over the same alphabet, all from in [0,56], all widths
-	ns := g.N(40, 1500)
+	ns := g.N(150, 1500)
 	for k := 0; k < ns; k++ {
 		n := g.R.Range(maxLen+1, 6)
 		s := g.R.Bytes(n, c11Alpha)
@@ -187,7 +324,7 @@ func genC11(g *Gen) {
 
 	// (3) random strings of every length 0..40 over the shared alphabets; starts before / at / after the end,
 	//     aligned and unaligned; widths biased to byte-span boundaries
-	nr := g.N(1500, 60000)
+	nr := g.N(6000, 60000)
 	for k := 0; k < nr; k++ {
 		n := g.R.Range(0, 12)
 		if g.R.Intn(5) == 0 {
@@ -239,7 +376,7 @@ func genC11(g *Gen) {
 
 	// (5) PathsOf: sorted key sets with shared prefixes (adjacent duplicates after truncation), unsorted
 	//     sets with non-adjacent duplicates, first path 0 and first path all-ones, both dedup flags
-	np := g.N(400, 12000)
+	np := g.N(1500, 12000)
 	for k := 0; k < np; k++ {
 		nk := g.R.Range(0, 8)
 		al := alphabets[g.R.Intn(len(alphabets))]
@@ -271,4 +408,39 @@ func genC11(g *Gen) {
 		h := g.R.Pick(0, 1, 8, 16, 31, 32, 32, g.R.Range(0, 32), g.R.Range(0, 32))
 		c11Paths(g, keys, from, h, "pathsof")
 	}
+
+	// (7) consecutive windows compose: random strings, the split point at / around byte boundaries and the string end
+	nsp := g.N(1500, 20000)
+	for k := 0; k < nsp; k++ {
+		n := g.R.Range(0, 9)
+		s := g.R.Bytes(n, alphabets[g.R.Intn(len(alphabets))])
+		from := g.R.Intn(8*n + 10)
+		w := g.R.Pick(32, 32, 31, 24, 16, g.R.Range(0, 32))
+		var w1 int
+		switch g.R.Intn(4) {
+		case 0: // split at a byte boundary
+			w1 = 8*((from+7)/8+g.R.Intn(4)) - from
+		case 1: // split at / around the end of the string
+			w1 = 8*n - from + g.R.Pick(-1, 0, 1)
+		case 2:
+			w1 = g.R.Pick(0, 1, w-1, w)
+		default:
+			w1 = g.R.Range(0, w)
+		}
+		if w1 < 0 {
+			w1 = 0
+		}
+		if w1 > w {
+			w1 = w
+		}
+		key := c11Key(s, from, w)
+		if key != "" {
+			key = fmt.Sprintf("split/%s/%s", key, map[bool]string{true: "inner", false: "edge"}[w1 > 0 && w1 < w])
+		}
+		g.Stat("split")
+		g.Do("bitmap.FromStr32/split", L(Bytes(s), Int(from), Int(w1), Int(w-w1)), key)
+	}
+
+	// (6) PathsOf on sorted keys with a common prefix (relational checker)
+	c11Sorted(g)
 }
